@@ -65,7 +65,10 @@ def _gen_plan(seed, tier):
         at = first + 1
         ops.insert(at, {'op': 'set', 'what': 'bounds', 'arg': dict(b0['arg'], lo=new_lo, hi=new_hi)})
         ops.insert(at + 1, {'op': 'step', 'n': r5.randint(1, 4)})
-        plan['ops'] = [o for o in ops if not (o['op'] == 'set' and o['what'] == 'constraint' and o['arg'] is None and ops.index(o) < first)]
+        # (constraints were drawn to fit the boxes as generated: none in these plans, before or during the run)
+        ops = [o for o in ops if not (o['op'] == 'set' and o['what'] == 'constraint')]
+        for o in ops: o.pop('constraint_kw', None)
+        plan['ops'] = ops
     return plan
 
 from ..env import sub_rng as _sub_rng5
